@@ -157,8 +157,17 @@ def export_names(_req=None):
             return [w for w in words if len(set(meanings.get(normalize_unicode(w.lower()), []))) == 1]
         ms = [single(info.get(k) or []) for k in MKEYS]
         ws = [single(info.get(k) or []) for k in WKEYS]
+        # multi-word vocabulary entries (relative phrases such as ee 'kɔsiɖa sia' = "this week", which is also what
+        # "Sunday July" looks like): a generated string in which two names happen to spell one of them is a different
+        # sentence of that language, not a rendering of the format
+        phrases = set()
+        for k, val in info.items():
+            vals = val if isinstance(val, list) else ([x for xs in val.values() for x in xs] if isinstance(val, dict) and k == "relative-type" else [])
+            for x in vals:
+                if isinstance(x, str) and len(x.split()) > 1:
+                    phrases.add(x.lower())
         if any(ms):
-            out[lang] = {"months": ms, "weekdays": ws}
+            out[lang] = {"months": ms, "weekdays": ws, "phrases": sorted(phrases)}
     return out
 
 
@@ -178,6 +187,11 @@ def run(ctx):
         cases = []
 
         def add(fmt, dt, names, lang, words):
+            # formats written for whole lines of a file or for fixed-width columns begin / end with literal whitespace:
+            # the produced string matches them exactly
+            if lang == "en" and rng.random() < 0.12:
+                pre, post = rng.choice([("", "\n"), (" ", ""), ("", "\r\n"), ("\t", ""), ("", " "), (" ", " "), ("", "\t")])
+                fmt = pre + fmt + post
             fl = flags(fmt)
             y = dt[0]
             if "%y" in fmt and not (1969 <= y <= 2068):
@@ -258,6 +272,9 @@ def run(ctx):
                     words.append(names["A"][wd])
                 if not all(words):
                     continue
+                text = render(fmt, dt, names).lower()
+                if any(ph in text and not any(ph in w_.lower() for w_ in words) for ph in v.get("phrases", [])):
+                    continue        # two names side by side spell another entry of the vocabulary
                 add(fmt, dt, names, lang, words)
     # a share of the cases runs on parsers that were all constructed before any of them was used (state shared behind
     # the constructor would surface as another case's result)
